@@ -304,8 +304,9 @@ class Dimension:
 
         self = super().__new__(cls)
         self._initialized = False
-        cls._known[key] = self
-        return self
+        # setdefault is atomic: if another thread registered this key since the
+        # check above, every thread still gets the one registered instance
+        return cls._known.setdefault(key, self)
 
     def __init__(
         self,
@@ -645,8 +646,9 @@ class Prefix:
 
         self = super().__new__(cls)
         self._initialized = False
-        cls._known[key] = self
-        return self
+        # setdefault is atomic: if another thread registered this key since the
+        # check above, every thread still gets the one registered instance
+        return cls._known.setdefault(key, self)
 
     def __init__(
         self,
@@ -917,8 +919,9 @@ class Unit:
         self._initialized = False
         if not factors:
             key = cls._build_key(prefix, {self: 1})
-        cls._known[key] = self
-        return self
+        # setdefault is atomic: if another thread registered this key since the
+        # check above, every thread still gets the one registered instance
+        return cls._known.setdefault(key, self)
 
     def __init__(
         self,
@@ -1644,8 +1647,9 @@ class Logarithm:
 
         self = super().__new__(cls)
         self._initialized = False
-        cls._known[key] = self
-        return self
+        # setdefault is atomic: if another thread registered this key since the
+        # check above, every thread still gets the one registered instance
+        return cls._known.setdefault(key, self)
 
     def __init__(
         self,
@@ -1743,8 +1747,9 @@ class LogarithmicUnit:
 
         self = super().__new__(cls)
         self._initialized = False
-        cls._known[key] = self
-        return self
+        # setdefault is atomic: if another thread registered this key since the
+        # check above, every thread still gets the one registered instance
+        return cls._known.setdefault(key, self)
 
     def __init__(
         self,
